@@ -252,6 +252,31 @@ def sp_emitted_level(E, s, args, kw):
     return [(s, SKind(z3.Select(_em(s)["level"], int_term(args[0]))))]
 
 
+def sp_val(E, s, args, kw):
+    tl, cell = _stream_of(s, args[0])
+    return [(s, SStr(z3.Select(cell.val, int_term(tl.off) + int_term(args[1]))))]
+
+
+def sp_hasval(E, s, args, kw):
+    tl, cell = _stream_of(s, args[0])
+    return [(s, mk_bool(z3.Select(cell.hasval, int_term(tl.off) + int_term(args[1]))))]
+
+
+def sp_hist_name(E, s, args, kw):
+    h = s.cell(args[0]).attrs["history"]
+    return [(s, SKind(h.name(int_term(args[1]))))]
+
+
+def havoc_stream_positions(E, st, frame):
+    """token.pos = ... inside a cut loop: every position may have changed"""
+    env = frame if frame is not None else st.locals
+    ctx = env["context"]
+    tl = st.cell(ctx).attrs["tokens"]
+    cell = st.cell(tl.stream)
+    st.set_cell(tl.stream, cell.replace(lin=z3.Array(fresh_name("lin_h"), I, I),
+                                        col=z3.Array(fresh_name("col_h"), I, I)))
+
+
 def sp_hist_len(E, s, args, kw):
     h = s.cell(args[0]).attrs["history"]
     return [(s, mk_int(h.length))]
@@ -268,7 +293,9 @@ def install(E):
         "is_tok": sp_is_tok,
         "emitted_n": sp_emitted_n, "emitted_total": sp_emitted_total, "emitted_count": sp_emitted_count,
         "emitted_name": sp_emitted_name, "emitted_line": sp_emitted_line, "emitted_col": sp_emitted_col,
-        "emitted_level": sp_emitted_level, "hist_len": sp_hist_len,
+        "emitted_level": sp_emitted_level, "hist_len": sp_hist_len, "hist_name": sp_hist_name,
+        "val": sp_val, "hasval": sp_hasval,
     }.items():
         E.spec_builtins[name] = Builtin(name, fn)
     E.ghost_havoc["emitted"] = havoc_emitted
+    E.havoc_models["stream"] = havoc_stream_positions
